@@ -125,9 +125,52 @@ class FakeTime(object):
         return FakeReading(r)
 
 
-def run_impl(last0, clock):
+def reentrant_logging_probe():
+    """The skew warning is logged while the generator's lock is held and BEFORE the new value is stored.  A logging handler
+    that itself asks the generator for a timestamp (application handlers that write log records through the driver do) re-enters
+    on the same thread: with a non-reentrant lock that call cannot proceed (no value is returned: nothing to compare); if the lock
+    admits the owning thread again, every value returned -- nested or not -- must still be strictly increasing.  The probe
+    re-enters only when the lock can be re-acquired by the calling thread.  Returns None or a description."""
+    import logging
     import cassandra.timestamps as T
-    g = T.MonotonicTimestampGenerator(warn_on_drift=False)
+    for thr, itv in ((1, 1), (0, 0), (1, 0)):
+        g = T.MonotonicTimestampGenerator(warn_on_drift=True, warning_threshold=thr, warning_interval=itv)
+        vals = []
+
+        class H(logging.Handler):
+            def emit(self, record):
+                try:
+                    ok = g.lock.acquire(False)
+                except Exception:
+                    return
+                if ok:
+                    g.lock.release()
+                    if len(vals) < 50:
+                        vals.append(('nested', g()))
+        h = H()
+        old_time, old_prop, old_level = T.time, T.log.propagate, T.log.level
+        T.log.addHandler(h)
+        T.log.propagate = False
+        T.log.setLevel(logging.WARNING)
+        T.time = FakeTime([10 * 10**6, 10 * 10**6, 8 * 10**6, 8 * 10**6, 7 * 10**6, 12 * 10**6])
+        try:
+            for _ in range(6):
+                vals.append(('call', g()))
+        finally:
+            T.time, T.log.propagate = old_time, old_prop
+            T.log.setLevel(old_level)
+            T.log.removeHandler(h)
+        seq = [v for _, v in vals]
+        for a, b in zip(seq, seq[1:]):
+            if not b > a:
+                return ('warning_threshold=%r warning_interval=%r, clock 10s,10s,8s,8s,7s,12s, a logging handler on cassandra.timestamps asks for a '
+                        'timestamp during the skew warning: values in order of return %r' % (thr, itv, vals))
+    return None
+
+
+def run_impl(last0, clock, warn=False):
+    import cassandra.timestamps as T
+    g = T.MonotonicTimestampGenerator(warn_on_drift=warn, warning_threshold=0 if warn else 1, warning_interval=0 if warn else 1)
     g.last = last0
     old = T.time
     T.time = FakeTime(clock)
@@ -249,6 +292,11 @@ def run(ctx):
                 t += d
                 clock.append(t)
             got = run_impl(last0, clock)
+            # the default configuration logs a skew warning (threshold/interval 0 here: it fires whenever it can): same values
+            gotw = run_impl(last0, clock, warn=True)
+            if gotw != got:
+                ctx.violation('warn_on_drift.changes-the-values', 'clock %r from last=%d: warn_on_drift=False returns %r, warn_on_drift=True returns %r'
+                              % (clock, last0, got, gotw), case={'last': last0, 'clock': clock, 'warn': True}, expected=got, actual=gotw, theorem='C31_strict')
             ctx.case([last0, clock], nontrivial=any(d <= 0 for d in ds), sample={'last': last0, 'clock': clock, 'returned': got})
             ctx.count('len', len(clock))
             prev = last0
@@ -307,14 +355,33 @@ def run(ctx):
                 break
             prev = r
     explore_interleavings(ctx)
+    # same-thread re-entry from a logging handler during the skew warning
+    try:
+        prob = reentrant_logging_probe()
+    except Exception as e:
+        prob = None
+        ctx.proof_broken.append(('harness:reentrant_logging_probe', repr(e)[:300]))
+    ctx.case(['reentrant-logging'], nontrivial=True)
+    if prob:
+        ctx.violation('reentrant.not-strictly-increasing', prob, case={'probe': 'reentrant_logging_probe'}, kind='interleaving',
+                      expected='strictly increasing in order of return', actual=prob, theorem='C31_strict')
     ctx.assume('one MonotonicTimestampGenerator.__call__ is one atomic step (checked by the lock audit)',
                'the clock reading int(time.time()*1e6) is an arbitrary integer input of the model')
 
 
 def replay(ctx, rp):
     case = rp.get('case') or {}
+    if case.get('probe') == 'reentrant_logging_probe':
+        prob = reentrant_logging_probe()
+        print('replay probe: %s' % (prob or 'ok'))
+        print(('VIOLATION property=C31 replay=%s' % ctx.replay_path) if prob else 'not reproduced')
+        return 1 if prob else 0
     if 'clock' in case and isinstance(case['clock'], list):
-        got = run_impl(case['last'], case['clock'])
+        got = run_impl(case['last'], case['clock'], warn=bool(case.get('warn')))
+        if case.get('warn') and got != run_impl(case['last'], case['clock']):
+            print('replay: warn_on_drift=True returns %r, False returns %r' % (got, run_impl(case['last'], case['clock'])))
+            print('VIOLATION property=C31 replay=%s' % ctx.replay_path)
+            return 1
         print('replay last=%r clock=%r -> %r' % (case['last'], case['clock'], got))
         prev, bad = case['last'], False
         for now, r in zip(case['clock'], got):
